@@ -4,7 +4,9 @@
 (* alphabet, the pair refines the documented ordered set (Containers!HsApply): the list is   *)
 (* the abstract sequence and the set describes exactly the same elements.                    *)
 (* Variant "orig" is the code as found (remove() compares the un-lowered argument, the       *)
-(* constructor does not de-duplicate): TLC finds the divergence.  "fixed" = after the fix.   *)
+(* constructor does not de-duplicate): TLC finds the divergence.  "fixed" = after the fixes. *)
+(* Variant "preassign" = fixed except item assignment as it was before its repair (hs[i] = x  *)
+(* with x already a member elsewhere kept x twice in the list, once in the set): must violate.*)
 EXTENDS Containers, TLC
 
 CONSTANTS Variant, Items, MaxLen
@@ -36,10 +38,19 @@ Rem == \E x \in Items : LET r == RemoveImpl(x) IN
           h' = r.h /\ s' = r.s /\ abs' = HsApply(abs, "discard", A1(x)).st
 DelI == \E i \in 1..Len(h) : h' = DelAt(h, i) /\ s' = s \ {Lower(h[i])}
                              /\ abs' = HsApply(abs, "delitem_idx", [A1(<<>>) EXCEPT !.idx = i - 1]).st
+\* hs[i] = x.  "fixed" = the code after the repair (the other occurrence of an already present header is
+\* dropped); "preassign" = the code before it: the item is stored at i, the lower-case set holds it once,
+\* the other occurrence stays in the list (list ['b','b'] with len 1).
 SetI == \E i \in 1..Len(h), x \in Items :
-          /\ i <= Len(abs) /\ HsAssignOK(abs, i, x)
-          /\ h' = [h EXCEPT ![i] = x] /\ s' = (s \ {Lower(h[i])}) \cup {Lower(x)}
-          /\ abs' = HsApply(abs, "setitem_idx", [A1(x) EXCEPT !.idx = i - 1]).st
+          LET key == Lower(x)
+              s1  == s \ {Lower(h[i])}
+              h1  == [h EXCEPT ![i] = x]
+              oth == FirstIdx([j \in 1..Len(h1) |-> j], LAMBDA j : j # i /\ Lower(h1[j]) = key)
+          IN /\ i <= Len(abs)
+             /\ IF Variant = "preassign" \/ key \notin s1
+                  THEN h' = h1 /\ s' = s1 \cup {key}
+                  ELSE h' = (IF oth = 0 THEN h1 ELSE DelAt(h1, oth)) /\ s' = s1
+             /\ abs' = HsApply(abs, "setitem_idx", [A1(x) EXCEPT !.idx = i - 1]).st
 Clear == h' = <<>> /\ s' = {} /\ abs' = <<>>
 Next == (Add \/ Upd \/ Rem \/ DelI \/ SetI \/ Clear) /\ Len(h') <= MaxLen
 
